@@ -294,6 +294,15 @@ class TermBuilder:
                     if isinstance(st, ast.Assign) and isinstance(st.value, ast.Constant) \
                             and self.ana.prog.modules[mod].global_assign_count.get(nm, 0) == 1:
                         return tm.as_term(st.value.value) if not isinstance(st.value.value, float) else tm.const(Fraction(repr(st.value.value)))
+                    if isinstance(st, ast.Assign) and self.ana.prog.modules[mod].global_assign_count.get(nm, 0) == 1 \
+                            and not self._rebound_by_global_stmt(mod, nm) and self._constant_expression(st.value):
+                        # LOG_2PI = math.log(2.0 * math.pi): a module constant defined by a closed arithmetic expression
+                        try:
+                            t = self.term(st.value, at)
+                        except Exception:
+                            t = None
+                        if t is not None and not any(isinstance(x, Sym) and x.name not in ("pi", "e") for x in tm.subterms(t)):
+                            return t
                 return Sym(fq)
             return Sym(name)
         key = (at.id, name)
@@ -346,6 +355,31 @@ class TermBuilder:
         if lag is not None:
             return lag
         return Sym(f"{name}@phi{at.id}")
+
+    def _constant_expression(self, e: ast.expr) -> bool:
+        """Numbers, math.pi / numpy.pi, arithmetic, and math.* / numpy.* functions of such."""
+        if isinstance(e, ast.Constant):
+            return isinstance(e.value, (int, float)) and not isinstance(e.value, bool)
+        if isinstance(e, ast.UnaryOp):
+            return self._constant_expression(e.operand)
+        if isinstance(e, ast.BinOp):
+            return self._constant_expression(e.left) and self._constant_expression(e.right)
+        if isinstance(e, ast.Attribute):
+            r = self.ana.res.fq_of_expr(self.fi, e)
+            return bool(r) and r[1] in ("math.pi", "numpy.pi", "math.e", "numpy.e", "math.tau")
+        if isinstance(e, ast.Call) and not e.keywords:
+            r = self.ana.res.fq_of_expr(self.fi, e.func)
+            return bool(r) and r[1] in ("math.log", "math.sqrt", "math.exp", "numpy.log", "numpy.sqrt", "numpy.exp", "builtins.float", "builtins.int") \
+                and all(self._constant_expression(a) for a in e.args)
+        return False
+
+    def _rebound_by_global_stmt(self, mod: str, nm: str) -> bool:
+        for f in self.ana.prog.functions.values():
+            if f.module.name == mod:
+                for n in ast.walk(f.node):
+                    if isinstance(n, ast.Global) and nm in n.names:
+                        return True
+        return False
 
     def _reaches(self, a: Node, b: Node) -> bool:
         if a.id == b.id:
